@@ -3,12 +3,14 @@ package prop
 import (
 	"bytes"
 	"fmt"
+	"strings"
 
 	"github.com/biogo/hts/bgzf"
 
 	"verif/core"
 	"verif/gen"
 	"verif/mon"
+	"verif/oracle"
 )
 
 func init() {
@@ -17,7 +19,7 @@ func init() {
 		Level: "exploration",
 		Rule: "a case is (write script, level, wc, rd, source-reader kind, read pattern, GOMAXPROCS, hook level). The script (Write lengths around 0/1/BlockSize±1/multi-block, fill level of the active block steered to 0, 1 and BlockSize-1, Flush and Wait interspersed; zeros/text/random/0xFF content) is run on the real Writer into a buffer; the buffer is read back with the real Reader using a seeded mix of Read(n) and ReadByte; the model is the concatenation of the payloads. " +
 			"Every Write must return (len,nil), Flush/Wait/Close nil, every read step must return exactly the model's bytes, a short Read only at the end with io.EOF. " +
-			"A case is non-trivial when the script produces at least 2 data blocks; distinct = distinct (script, configuration) fingerprints. Concurrent configurations are repeated under the race detector, and with the widening hook (yields/sleeps at the library's suspension points); the number of distinct hook-trace shapes is reported as observed interleavings.",
+			"'limit' cases put a full incompressible block behind a padded header so that the member lands on MaxBlockSize-3..+3: when every writer call returns nil the bytes must read back. A case is non-trivial when the script produces at least 2 data blocks; distinct = distinct (script, configuration) fingerprints. Concurrent configurations are repeated under the race detector, and with the widening hook (yields/sleeps at the library's suspension points); the number of distinct hook-trace shapes is reported as observed interleavings.",
 		Floor:       map[string]int{"quick": 150, "thorough": 2000},
 		Plan:        c01Plan,
 		Run:         c01Run,
@@ -41,7 +43,7 @@ func c01Plan(seed int64, tier string) []core.Case {
 			"wc":    wcs[rng.Intn(len(wcs))],
 			"rd":    rds[rng.Intn(len(rds))],
 			"level": int64(rng.Intn(11) - 1),
-			"src":   int64(rng.Intn(3)),
+			"src":   int64(rng.Intn(4)),
 			"hook":  int64(rng.Intn(4)),
 			"procs": []int64{0, 0, 1, 2, 16}[rng.Intn(5)],
 		}}
@@ -51,11 +53,87 @@ func c01Plan(seed int64, tier string) []core.Case {
 		}
 		cs = append(cs, c)
 	}
+	// limit: a full incompressible block behind a padded header, so that the
+	// member lands on MaxBlockSize-3..+3; either a call fails or it reads back.
+	for _, level := range []int64{0, 1, -1} {
+		for pad := int64(0); pad < 7; pad++ {
+			for _, wc := range []int64{1, 3} {
+				cs = append(cs, core.Case{Kind: "limit", Seed: core.SubSeed(seed, "c01limit", level, pad, wc),
+					P: map[string]int64{"level": level, "pad": pad, "wc": wc, "rd": []int64{0, 1, 3}[int(pad+wc)%3]}})
+			}
+		}
+	}
 	return cs
+}
+
+// c01Limit writes some data, one full incompressible block whose member is
+// padded (header comment) to land around MaxBlockSize, and more data. When
+// every writer call returns nil the bytes must read back.
+func c01Limit(r *core.Result, c core.Case) *core.Result {
+	rng := c.Rng()
+	level, wc, rd := c.Int("level"), c.Int("wc"), c.Int("rd")
+	full := make([]byte, gen.BlockSize)
+	rng.Read(full)
+	var probe bytes.Buffer
+	pw, _ := bgzf.NewWriterLevel(&probe, level, 1)
+	pw.Write(full)
+	pw.Close()
+	pm, err := oracle.ParseStream(probe.Bytes())
+	if err != nil || len(pm) == 0 {
+		r.Violate("limit|probe", "cannot parse the probe stream: %v", err)
+		return r
+	}
+	target := oracle.MaxBlockSize - 3 + c.Int("pad")
+	pad := target - pm[0].Len - 1
+	r.FP = core.Hash("limit", level, target, wc, rd)
+	r.Sample = map[string]any{"kind": "limit", "level": level, "wc": wc, "rd": rd, "target_member_len": target, "comment_len": pad}
+	if pad < 1 {
+		return r
+	}
+	r.Nontrivial = true
+	cfg := fmt.Sprintf("limit wc=%d rd=%d level=%d target member length MaxBlockSize%+d", wc, rd, level, target-oracle.MaxBlockSize)
+	head := make([]byte, 1+rng.Intn(300))
+	tail := make([]byte, 1+rng.Intn(300))
+	gen.Fill(rng, head, 1)
+	gen.Fill(rng, tail, 1)
+	var out bytes.Buffer
+	w, _ := bgzf.NewWriterLevel(&out, level, wc)
+	w.Comment = strings.Repeat("x", pad)
+	var errs []error
+	step := func(_ int, err error) { errs = append(errs, err) }
+	step(w.Write(head))
+	step(0, w.Flush())
+	step(w.Write(full))
+	step(0, w.Flush())
+	step(w.Write(tail))
+	step(0, w.Wait())
+	step(0, w.Close())
+	for _, e := range errs {
+		if e != nil {
+			r.Count("limit_writer_reported_error", 1)
+			return r // the failure was loud; C08 judges what was left behind
+		}
+	}
+	r.Count("limit_writer_succeeded", 1)
+	model := append(append(append([]byte{}, head...), full...), tail...)
+	rr, err := bgzf.NewReader(bytes.NewReader(out.Bytes()), rd)
+	if err != nil {
+		r.Violate("reader|new", "%s: NewReader on the writer's output: %v", cfg, err)
+		return r
+	}
+	cls, detail := readBack(rr, model, rng)
+	if cls != "" {
+		r.Violate("roundtrip|"+cls, "%s: every writer call returned nil, but %s", cfg, detail)
+	}
+	rr.Close()
+	return r
 }
 
 func c01Run(c core.Case) *core.Result {
 	r := core.NewResult()
+	if c.Kind == "limit" {
+		return c01Limit(r, c)
+	}
 	rng := c.Rng()
 	maxTotal := 6 * gen.BlockSize
 	script := gen.RandScript(rng, 14, maxTotal)
